@@ -93,6 +93,17 @@ def main(tier_):
         variants[mech] = r["violated"]
     gen, gcases, total = pc.generate("MC_C06_gen.cfg" if quick else "MC_C06_thorough_gen.cfg", rnd, 1500 if quick else None)
     cases, res = pc.execute(gcases)
+    # the same cases as a kernel of the 5.8 - 6.7 series would answer them: STATX_MNT_ID_UNIQUE is cleared from every statx
+    # request mask by the supervisor, so only the classic STATX_MNT_ID comes back (host-visible handles; the others never
+    # see an over-mount)
+    old_k = [dict(c, id=c["id"] + "|classic-mnt-id", trace=True, raw=False, statx_clear=0x4000) for c in cases if c["meta"]["g"]["om"] and pc.sees(c["meta"]["g"]["hk"])]
+    if quick and len(old_k) > 300:
+        rnd.shuffle(old_k)
+        old_k = old_k[:300]
+    old_k.sort(key=lambda c: json.dumps(c["feat"]))
+    res_old = run_pv(old_k, jobs=8, tag="C06o")
+    n_cleared = sum(1 for r in res_old for e in r.get("events", []) if e.get("mask_cleared"))
+    cases, res = cases + old_k, res + res_old
     stats = collections.Counter()
     samples = []
     pending_private = []
@@ -116,7 +127,8 @@ def main(tier_):
         exp = g["expect"]
         got = lib_outcome(x)
         srcs = {(m.get("src_dev"), m.get("src_ino")) for m in r.get("mounts", [])}
-        desc = "%s(%s, %r) on a %s handle [%s resolver], over-mounts %s" % (g["op"], g["base"], c["calls"][1]["path"], g["hk"], g["rs"], [(m["node"], m["kind"]) for m in g["om"]] or "none")
+        desc = "%s(%s, %r) on a %s handle [%s resolver%s], over-mounts %s" % (g["op"], g["base"], c["calls"][1]["path"], g["hk"], g["rs"], ", kernel reporting only the classic STATX_MNT_ID" if c.get("statx_clear") else "",
+                                                                        [(m["node"], m["kind"]) for m in g["om"]] or "none")
         if got[0] in ("ok", "body"):
             stats["ok"] += 1
             problems = []
@@ -174,7 +186,7 @@ def main(tier_):
     cov = dict(states=design["distinct"], transitions=design["states"], traces_validated_against_impl=stats["cases"], samples=samples or [dict(note="none")], evaluations=len(cases),
                distinct_nontrivial=len([c for c in cases if c["meta"]["g"]["om"]]),
                rule="case = (over-mount set of <= %d mounts over 10 mountable nodes x kinds, handle kind, resolver, base, path, op) generated by TLC; non-trivial = at least one over-mount is present" % (1 if quick else 2),
-               exhaustive=not quick, generated=total, design_complete=design["complete"], design_violated=design["violated"], mechanism_removal_variants=variants,
+               exhaustive=not quick, generated=total, classic_mnt_id_cases=len(old_k), statx_masks_rewritten=n_cleared, design_complete=design["complete"], design_violated=design["violated"], mechanism_removal_variants=variants,
                mount_failed=stats["mount_failed"], handle_failed=stats["handle_failed"], outcomes={k: n for k, n in stats.items() if k.startswith(("ok", "err_"))},
                racing_mounts=race_stats, model_ok_real_err=stats["model_ok_real_err"], exdev_other_errno=stats["exdev_other_errno"], notes=v.notes[:12], build_s=round(build_s, 1))
     write_evidence("C06", tier_, "model_checking", cov, ASSUME, time.time() - t0, len(v.violations))
